@@ -45,10 +45,19 @@ pub fn run(rng: &mut Rng, n: usize, outdir: &std::path::Path, flavour: &str) {
                     };
                     let mut b = start;
                     let mut played: Vec<Move> = Vec::new();
-                    for _ in 0..rng.below(12) {
+                    // one game in three shuffles pieces back and forth, so that the position searched (and its successors)
+                    // already occurred in the history given with the command
+                    let shuffle = rng.chance(1, 3);
+                    for _ in 0..(if shuffle { 4 + rng.below(10) } else { rng.below(12) }) {
                         let ms = g.mg.generate_moves(&b);
                         if ms.is_empty() { break; }
-                        let m = *rng.pick(&ms);
+                        let m = if shuffle && played.len() >= 2 && rng.chance(4, 5) {
+                            let prev = played[played.len() - 2];
+                            match ms.iter().find(|x| x.from == prev.to && x.to == prev.from && x.piece_type == prev.piece_type && x.move_type == MoveType::Quiet) { Some(x) => *x, None => *rng.pick(&ms) }
+                        } else if shuffle {
+                            let quiet: Vec<&Move> = ms.iter().filter(|x| x.move_type == MoveType::Quiet && x.piece_type != crate::pieces::Piece::Pawn).collect();
+                            if !quiet.is_empty() { **rng.pick(&quiet) } else { *rng.pick(&ms) }
+                        } else { *rng.pick(&ms) };
                         played.push(m);
                         b.make_move(&m);
                     }
